@@ -21,7 +21,7 @@ class LostAnchor(Exception):
 def apply_rules(name, text, rules, log):
     for (kind, pat, rep, count) in rules:
         n = len(re.findall(pat, text, flags=re.S))
-        if n != count:
+        if count is not None and n != count:
             raise LostAnchor("%s: %s rule %r matched %d times, expected %d" % (name, kind, pat[:60], n, count))
         before = text
         text = re.sub(pat, rep, text, flags=re.S)
@@ -80,6 +80,7 @@ def build_unit(unit):
     src, _ = X.cut_tests(src)
     log = []
     removed = []
+    lost = []
     out = [open(os.path.join(VERIF, unit["prelude"])).read()]
     linemap = []
     cur_line = out[0].count("\n") + 1
@@ -91,14 +92,24 @@ def build_unit(unit):
         except KeyError:
             raise LostAnchor("function %s no longer exists in %s" % (name, unit["source"]))
         original = txt
-        # drop doc comments / attributes that Verus rejects
-        txt, rem = strip_cfg_debug_blocks(txt)
-        txt = re.sub(r"^\s*#\[(wasm_bindgen[^\]]*|allow\([^\]]*\)|cfg\(not\(all\(target_arch = \"wasm32\", not\(test\)\)\)\))\]\s*$", "", txt, flags=re.M)
-        removed += [dict(function=name, text=r) for r in rem]
-        txt = apply_rules(name, txt, f.get("rewrites", []), log)
-        txt = name_return(txt, name, f.get("ret", "res"))
-        txt = txt.replace("/*CONTRACT*/", f.get("contract", "").strip("\n"))
-        txt = apply_rules(name, txt, f.get("annotations", []), log)
+        try:
+            # drop doc comments / attributes that Verus rejects
+            txt, rem = strip_cfg_debug_blocks(txt)
+            txt = re.sub(r"^\s*#\[(wasm_bindgen[^\]]*|allow\([^\]]*\)|cfg\(not\(all\(target_arch = \"wasm32\", not\(test\)\)\)\))\]\s*$", "", txt, flags=re.M)
+            removed += [dict(function=name, text=r) for r in rem]
+            txt = apply_rules(name, txt, f.get("rewrites", []), log)
+            txt = name_return(txt, name, f.get("ret", "res"))
+            txt = txt.replace("/*CONTRACT*/", f.get("contract", "").strip("\n"))
+            txt = apply_rules(name, txt, f.get("annotations", []), log)
+        except LostAnchor as e:
+            # this function cannot be brought under the verifier on this tree: keep only its contract
+            # (assumed for its callers) and report the function itself as undecided
+            lost.append(dict(function=name, reason=str(e)))
+            txt = name_return(original, name, f.get("ret", "res"))
+            txt = txt.replace("/*CONTRACT*/", f.get("contract", "").strip("\n"))
+            body = txt.index("{", txt.index(f.get("contract", "").strip("\n")[-20:]) if f.get("contract", "").strip() else 0)
+            txt = "#[verifier::external_body]\n" + txt[:body] + "{ unimplemented!() }"
+            txt = re.sub(r"^\s*#\[(wasm_bindgen[^\]]*|allow\([^\]]*\)|cfg\([^\n]*\))\]\s*$", "", txt, flags=re.M)
         txt = re.sub(r"pub\(crate\) fn", "pub fn", txt)
         blocks.append((name, line, txt, original))
     body = ["impl Axecutor {\n"]
@@ -113,7 +124,7 @@ def build_unit(unit):
     body.append("}\n")
     out.append("".join(body))
     out.append(unit.get("epilogue", "") + "\n} // verus!\nfn main() {}\n")
-    return "".join(out), dict(rules=log, removed_debug_only=removed, linemap=linemap,
+    return "".join(out), dict(lost=lost, rules=log, removed_debug_only=removed, linemap=linemap,
                               functions=[dict(name=n, repo_line=l, sha256=X.sha(o)) for (n, l, t, o) in blocks])
 
 
